@@ -66,7 +66,7 @@ thread_local! {
 pub fn install_panic_hook() {
 	std::panic::set_hook(Box::new(|info| {
 		let msg = format!("{info}");
-		if std::env::var_os("XTMC_SHOW_PANICS").is_some() {
+		if std::env::var_os("XTMC_SHOW_PANICS").is_some() || msg.contains("MACHINERY") {
 			eprintln!("[panic] {msg}");
 		}
 		LAST_PANIC.with(|p| *p.borrow_mut() = Some(msg));
